@@ -389,7 +389,31 @@ def main():
         out_lines.append(f'VIOLATION property={cid} replay={rp}')
         nviol += len(unlisted_mon)
     broken = [o for o in obligations if not o[1]]
-    if broken and not unlisted_mon and not halts:
+    # a mismatching square on which the implementation panics or hangs inside provider selection or a
+    # block phase, where the model terminates normally, is itself a failing input for the liveness properties
+    crash = None
+    if P.get('crash_is_witness') and mism and not unlisted_mon and not halts:
+        for name, hi, hf, ln, whatm in mism[:400]:
+            if not (os.path.exists(hf) and hf.endswith('.sx')) or 'model:ok' not in whatm:
+                continue
+            st = step_of(hf, ln)
+            m1 = re.search(r'\("Sel\w+" .{0,4000}? "(panic|hang)"\) "', st[:6000])
+            m2 = re.search(r'^\("step" \([^()]*\) \("(BeginBlock|EndBlock|Blocks)"[^"]*(?:\([^()]*\))?[^"]*\) "(panic|hang|halted|hung)', st[:6000])
+            if m1 or m2:
+                crash = (name, hi, hf, ln, whatm, (m1.group(1) if m1 else m2.group(2)))
+                break
+    if crash:
+        name, hi, hf, ln, whatm, how = crash
+        rp = os.path.join(V, 'replays', f'{cid}-{seed}-crash.json')
+        keep = os.path.join(V, 'replays', f'{cid}-{seed}-h{hi}.sx')
+        shutil.copyfile(hf, keep)
+        json.dump({'property': cid, 'kind': f'the implementation ends in {how} on an input on which the model (and the property) require normal termination',
+                   'profile': name, 'history_file': keep, 'line': ln, 'mismatch': whatm, 'step': step_of(hf, ln)[:4000],
+                   'broken': [{'obligation': o[0], 'detail': o[2]} for o in broken],
+                   'replay': f'{BUILD}/runner {keep}  # line {ln}; regenerate with saoh gen --profile {name}'}, open(rp, 'w'), indent=1)
+        out_lines.append(f'VIOLATION property={cid} replay={rp}')
+        nviol += 1
+    if broken and not unlisted_mon and not halts and not crash:
         rp = os.path.join(V, 'replays', f'{cid}-{seed}-broken.json')
         info = {'property': cid, 'kind': 'proof obligation or correspondence no longer checks',
                 'broken': [{'obligation': o[0], 'detail': o[2]} for o in broken]}
